@@ -10,14 +10,17 @@ package common
 // declared with the validator-side list in core/state/verif_contracts_c08.go. Lists are described over ABSOLUTE indices of the
 // backing array (`elems(s)[a]`, off(s) <= a < off(s)+len(s)): triggers without arithmetic.
 
-// strictly increasing, hence duplicate free
+// strictly increasing, hence duplicate free.
+// TRIGGERS: the order facts fire on `c08AddrNum(cell)` terms, not on every cell read: a two-variable pattern over plain cell reads instantiates for
+// every PAIR of cells any copy / append axiom ever mentions (tens of thousands of instances, and every address equality is an SMT array
+// extensionality problem). Clauses that need the order therefore mention the numbers of the cells they talk about.
 //@ spec func c08ASorted(s: SortedAddresses) bool =
-//@     forall a: int, b: int :: { elems(s)[a], elems(s)[b] } off(s) <= a && a < b && b < off(s) + len(s) ==> c08AddrNum(elems(s)[a]) < c08AddrNum(elems(s)[b])
+//@     forall a: int, b: int :: { c08AddrNum(elems(s)[a]), c08AddrNum(elems(s)[b]) } off(s) <= a && a < b && b < off(s) + len(s) ==> c08AddrNum(elems(s)[a]) < c08AddrNum(elems(s)[b])
 // p is the lower bound of address x in the sorted list s
 //@ spec func c08AIsLB(s: SortedAddresses, x: Address, p: int) bool =
 //@     0 <= p && p <= len(s) &&
-//@     (forall a: int :: { elems(s)[a] } off(s) <= a && a < off(s) + p ==> c08AddrNum(elems(s)[a]) < c08AddrNum(x)) &&
-//@     (forall a: int :: { elems(s)[a] } off(s) + p <= a && a < off(s) + len(s) ==> c08AddrNum(elems(s)[a]) >= c08AddrNum(x))
+//@     (forall a: int :: { c08AddrNum(elems(s)[a]) } off(s) <= a && a < off(s) + p ==> c08AddrNum(elems(s)[a]) < c08AddrNum(x)) &&
+//@     (forall a: int :: { c08AddrNum(elems(s)[a]) } off(s) + p <= a && a < off(s) + len(s) ==> c08AddrNum(elems(s)[a]) >= c08AddrNum(x))
 // the position Search returns (a function of the list content and the address)
 //@ spec func c08APos(arr: seq[Address], o: int, n: int, x: Address) int
 
@@ -26,7 +29,10 @@ package common
 // predicate on a sorted list, plus injectivity of Address.Big on the entries of the list.
 //@ func (SortedAddresses).Search props C08
 //@ trusted
+// (sortedness as a precondition, proved once at the call site, instead of a conditional postcondition: a quantified antecedent in an assumed
+//  postcondition made every later obligation of the caller expensive)
+//@ requires [sorted] c08ASorted(s)
 //@ pure
 //@ ensures result == c08APos(elems(s), off(s), len(s), a) && 0 <= result && result <= len(s)
-//@ ensures c08ASorted(s) ==> c08AIsLB(s, a, result)
-//@ ensures forall k: int :: { elems(s)[k] } off(s) <= k && k < off(s) + len(s) && c08AddrNum(elems(s)[k]) == c08AddrNum(a) ==> elems(s)[k] == a
+//@ ensures c08AIsLB(s, a, result)
+//@ ensures forall k: int :: { c08AddrNum(elems(s)[k]) } off(s) <= k && k < off(s) + len(s) && c08AddrNum(elems(s)[k]) == c08AddrNum(a) ==> elems(s)[k] == a
